@@ -38,6 +38,14 @@ Theorem C14_closure_unfold : forall segs G fuel a g,
 Proof. exact closure_unfold. Qed.
 Print Assumptions C14_closure_unfold.
 
+(* (1') get_ordered_segments_in_groups lists exactly those segments, each once, however many routes (a direct member that
+       an included group also supplies, two included groups sharing a segment) lead to one *)
+Theorem C14_ordered_once : forall segs G fuel a,
+  acyclic G -> closed G -> NoDup segs -> length G < fuel -> (In a (map gid G) \/ a = "all") ->
+  exists l, ordered_ids segs fuel G a = Ret l /\ NoDup l /\ forall s, In s l <-> reach segs G a s.
+Proof. exact ordered_once. Qed.
+Print Assumptions C14_ordered_once.
+
 (* (2) optimising returns, keeps the list of groups, and never changes the resolved set of any group *)
 Theorem C14_preserve :
   forall (sortS : list string -> list string) (sortZ : list Z -> list Z),
